@@ -78,6 +78,7 @@ func main() {
 	feasSched := flag.Bool("feas-sched", false, "solver feasibility checks at loop back edges in sched mode too")
 	unwindFn := flag.String("unwind-fn", "", "per-function unwinding bounds: Name=n,Name=n")
 	defines := flag.String("define", "", "override integer constants of the harness files: name=value,...")
+	feasTimeout := flag.Int("feas-timeout", 20000, "timeout (ms) of one feasibility query; unknown keeps the configuration")
 	feasPar := flag.Int("feas-par", 8, "solver processes used in parallel for feasibility pruning")
 	settleFeas := flag.Int("settle-feas", 8, "solver feasibility pruning of resting configs when a goroutine has more than this many (0 = off)")
 	eagerAll := flag.Bool("eager-all", false, "execute every potential runtime panic eagerly")
@@ -140,6 +141,7 @@ func main() {
 	e.trace = *trace
 	e.settleFeas = *settleFeas
 	e.feasPar = *feasPar
+	e.feasTimeout = *feasTimeout
 	e.unwindFn = map[string]int{}
 	for _, kv := range strings.Split(*unwindFn, ",") {
 		p := strings.SplitN(kv, "=", 2)
